@@ -121,7 +121,7 @@ CHECKS["C09"] = {
     "explanation": "regenerated error-site facts + cut theorems + sticky lemmas + fault sweep",
 }
 CHECKS["C10"] = {
-    "families": ["bio", "fl", "brd", "brr", "bz", "meta"],
+    "families": ["bio", "fl", "brd", "brr", "bz", "meta", "life"],
     "trusted_base": ["bit reader model (both source modes, adversarial Buffered()) tied to /repo by scripted correspondence (family bio)"],
     "assumptions": ["Buffered() answers are stable between Peek/Discard/Read (a source that shrinks them is outside the BufferedReader contract)"],
     "level_text": "partial: C10_flate_read_sizes (any two Read schedules, zeros included: same bytes, same final error), C10_source_shape (ReadByte-only vs Peek/Discard with any Buffered() adversary: same fields = the plain bit list), C10_bzip2_read_sizes (resumable RLE1 for every schedule), C10_xflate_any_fragmentation (C07 for every inflater behaviour). Whole-reader independence for bzip2, brotli, flate and meta: sweep over 11 source kinds (with and without bytes after the stream) and Read-size schedules with zero-length buffers.",
